@@ -25,13 +25,14 @@ and typed `int`), so it is proved with the explicit decidable hypothesis `InInt3
   bits of the float, given `ReprFaithful` (the text `repr` printed rounds to the float — the one
   fact trusted about CPython, an explicit decidable hypothesis); `nonfinite_rejected`;
 * bools, unsupported kinds — `bool_roundtrip`, `unsupported_rejected`;
-* a constant as an operand — `nonneg_not_glued`, `str_not_glued`, `sub_negative_counterexample`
-  (`x - Constant(-5)` is emitted `(x--5)`);
+* a constant as an operand — `int_not_glued`, `float_not_glued`, `str_not_glued`: no constant fuses
+  with the operator before it (negative numbers are emitted in parentheses since 212716c);
+  `negative_after_minus` (`x - Constant(-5)` is emitted `(x-(-5))`);
 * a numeric constant that is stored — `carrier_stored_ok`: through conditional expressions of any
   depth (the `double` result variables, the casts `set_var` writes, the column) every int of the
   32-bit range, finite float and bool keeps its value (`StoredOk`: exact C++ conversions along the
-  declared types); `stored_counterexamples` (what the clause forbids), `ifexp_str_counterexample`
-  (a string arm is cast to `double`: listed finding);
+  declared types), a bare string goes into a `string` column; `stored_counterexamples` (what the
+  clause forbids), `ifexp_str_rejected` (a string arm is refused since 6a224ae);
 * names — `bank_roundtrip` (all strings, any surrounding text), `names_roundtrip`: ALL tree and
   branch names in the booking/fill lines regenerated from the three backends (escaped since
   c38e414); `book_lines_ok`, `name_slots_present`, `all_names_escaped`, `escape_table_ok`,
@@ -43,7 +44,7 @@ integer arithmetic on every sampled float by the harness), the C++ lexing rules 
 ones), that the C++ compiler rounds a decimal literal to the nearest double (g++ echo, bit for
 bit), UTF-8 as both Python's output and g++'s input encoding.
 
-The remaining counterexample theorems (`int_…`, `sub_negative_…`, `cstr_nul_…`) describe the hand
+The remaining counterexample theorems (`int_…`, `cstr_nul_…`) describe the hand
 model and have to be retired together with the model when the code is repaired.
 -/
 import FaxVerif.C18.Proofs
@@ -206,8 +207,10 @@ theorem int_value_partial (n : Int) (h1 : -9223372036854775808 < n) (h2 : n < 92
     by_cases h31 : m + 1 < 2 ^ 31 <;> simp [h31, hm]
 
 /-- PARTIAL, as the Spec predicate: for every `n` of the 32-bit range (bounds included) the
-emitted text denotes `n` and the recorded type `int` can hold it. -/
-theorem int_const_ok_partial (n : Int) (h : InInt32 n) : ConstOk (.int n) (renderInt n) .int := by
+emitted text — `str(n)`, in parentheses when negative (212716c) — denotes `n` and the recorded type
+`int` can hold it. -/
+theorem int_const_ok_partial (n : Int) (h : InInt32 n) :
+    ConstOk (.int n) (signedLit (renderInt n)) .int := by
   obtain ⟨h1, h2⟩ := h
   have hfit : fitsTy .int n = true := by simp [fitsTy, InInt32, h1, h2]
   have hfit64 : fitsTy .long n = true := by
@@ -221,7 +224,7 @@ theorem int_const_ok_partial (n : Int) (h : InInt32 n) : ConstOk (.int n) (rende
     have hl : cppIntL (renderInt (Int.ofNat m)) = some (Int.ofNat m, .int) := by
       rw [cppIntL_renderInt_ofNat, intLitType_dec, if_pos hm]; rfl
     unfold ConstOk
-    simp only [hl]
+    simp only [cppIntE_signed, hl]
     exact ⟨by first | trivial | rfl, hfit, hfit⟩
   | negSucc m =>
     have hm : m + 1 ≤ 2 ^ 31 := by
@@ -231,13 +234,13 @@ theorem int_const_ok_partial (n : Int) (h : InInt32 n) : ConstOk (.int n) (rende
     · have hl : cppIntL (renderInt (Int.negSucc m)) = some (Int.negSucc m, .int) := by
         rw [cppIntL_renderInt_negSucc, intLitType_dec, if_pos h31]; rfl
       unfold ConstOk
-      simp only [hl]
+      simp only [cppIntE_signed, hl]
       exact ⟨by first | trivial | rfl, hfit, hfit⟩
     · have h63 : m + 1 < 2 ^ 63 := by omega
       have hl : cppIntL (renderInt (Int.negSucc m)) = some (Int.negSucc m, .long) := by
         rw [cppIntL_renderInt_negSucc, intLitType_dec, if_neg h31, if_pos h63]; rfl
       unfold ConstOk
-      simp only [hl]
+      simp only [cppIntE_signed, hl]
       exact ⟨by first | trivial | rfl, hfit64, hfit⟩
 
 /-- 3000000000 is accepted and emitted as `3000000000`: a literal of type `long` in C++, but the
@@ -270,16 +273,17 @@ theorem float_roundtrip (neg : Bool) (ip : List (Fin 10)) (fp : Option (List (Fi
   simp only [cppFloat, String.toList_ofList]
   exact cppFloatL_render neg ip fp ex wf
 
-/-- As the Spec predicate on the model's output: the emitted literal is a `double` literal whose
+/-- As the Spec predicate on the model's output: the emitted literal (in parentheses when
+negative) is a `double` literal whose
 exact decimal value rounds (IEEE-754 round-to-nearest-even) to exactly the 64 bits of the float —
 given the one fact trusted about CPython, that the text `repr` printed rounds to the float
 (`ReprFaithful`, an explicit hypothesis, checked by exact arithmetic on every sampled float). -/
 theorem float_const_ok (neg : Bool) (ip : List (Fin 10)) (fp : Option (List (Fin 10)))
     (ex : Option (Bool × List (Fin 10))) (bits : Nat) (wf : WFRepr (.finite neg ip fp ex))
     (hr : ReprFaithful (.finite neg ip fp ex) bits) :
-    ConstOk (.float (.finite neg ip fp ex) bits) (renderFloat neg ip fp ex) .double := by
+    ConstOk (.float (.finite neg ip fp ex) bits) (signedLit (renderFloat neg ip fp ex)) .double := by
   unfold ConstOk
-  simp only [cppFloatL_render neg ip fp ex wf]
+  simp only [cppFloatE_signed neg ip fp ex wf.1, cppFloatL_render neg ip fp ex wf]
   exact ⟨hr, trivial, trivial⟩
 
 /-- `inf`, `-inf` and `nan` have no C++ literal: they are refused (since the fix; before it the
@@ -292,27 +296,55 @@ theorem nonfinite_rejected (r : FloatRepr) (bits : Nat) (h : r = .nan ∨ ∃ b,
 
 /-! ## a numeric constant as an operand -/
 
-/-- A non-negative integer constant never fuses with the operator before it. -/
-theorem nonneg_not_glued (n : Nat) (prev : Char) : glued prev (renderInt (Int.ofNat n)) = false := by
-  obtain ⟨k, ds, hk, he⟩ := renderNat_head n
-  have h1 := digitChar_ne_minus hk
-  have h2 : digitChar k ≠ '+' := by
-    intro h
-    have := congrArg Char.toNat h
-    rw [digitChar_toNat hk] at this
-    have h0 : ('+' : Char).toNat = 43 := by decide
-    omega
-  simp [renderInt, he, glued, h1, h2]
+/-- **No integer constant fuses with the operator before it** (since 212716c): a non-negative one
+starts with a digit, a negative one with `(`. Before the repair `x - Constant(-5)` was `(x--5)`. -/
+theorem int_not_glued (n : Int) (prev : Char) : glued prev (signedLit (renderInt n)) = false := by
+  cases n with
+  | ofNat m =>
+    obtain ⟨k, ds, hk, he⟩ := renderNat_head m
+    have h1 := digitChar_ne_minus hk
+    have h2 : digitChar k ≠ '+' := by
+      intro h
+      have := congrArg Char.toNat h
+      rw [digitChar_toNat hk] at this
+      have h0 : ('+' : Char).toNat = 43 := by decide
+      omega
+    simp [renderInt, he, signedLit, glued, h1, h2]
+  | negSucc m => simp [renderInt, signedLit, glued]
+
+/-- **Nor does a float constant**: digits first, or `(` when negative (`-0.0` included). -/
+theorem float_not_glued (neg : Bool) (ip : List (Fin 10)) (fp : Option (List (Fin 10)))
+    (ex : Option (Bool × List (Fin 10))) (hip : ip ≠ []) (prev : Char) :
+    glued prev (signedLit (renderFloat neg ip fp ex)) = false := by
+  cases neg with
+  | true => rw [renderFloat_neg]; simp [signedLit, glued]
+  | false =>
+    obtain ⟨k, r, hk, he⟩ := digs_head hip
+    have h1 := digitChar_ne_minus hk
+    have h2 : digitChar k ≠ '+' := by
+      intro h
+      have := congrArg Char.toNat h
+      rw [digitChar_toNat hk] at this
+      have h0 : ('+' : Char).toNat = 43 := by decide
+      omega
+    rw [renderFloat_pos, he]
+    simp [signedLit, glued, h1, h2]
 
 /-- A string constant never fuses with the operator before it. -/
 theorem str_not_glued (s : Str) (prev : Char) : glued prev (renderStrL pyTable s) = false := by
   simp [renderStrL, glued]
 
-/-- `x - (-5)` with the constant -5 as ONE node of the query: the operand is emitted as `-5`
-directly after the operator, `(x--5)`, which C++ reads as a decrement. -/
-theorem sub_negative_counterexample :
-    glued '-' (renderInt (-5)) = true ∧ constAfter '-' (.int (-5)) (renderInt (-5) ++ [')']) = none ∧
-    constAt (.int (-5)) (renderInt (-5) ++ [')']) = some [')'] := by decide
+/-- `x - (-5)` with the constant -5 as ONE node of the query (the repaired input): the operand is
+emitted `(-5)`, and directly after the operator `-` the lexer finds a primary expression denoting
+-5 followed by the untouched rest; likewise `-2.5` and `-0.0`. -/
+theorem negative_after_minus :
+    (renderConst (.int (-5))).toOption = some ("(-5)".toList, .int) ∧
+    constAfter '-' (.int (-5)) "(-5))".toList = some [')'] ∧
+    (renderConst (.float (.finite true [2] (some [5]) none) 13836183955189006336)).toOption = some ("(-2.5)".toList, .double) ∧
+    constAfter '-' (.float (.finite true [2] (some [5]) none) 13836183955189006336) "(-2.5))".toList = some [')'] ∧
+    constAfter '-' (.float (.finite true [0] (some [0]) none) 9223372036854775808) "(-0.0))".toList = some [')'] ∧
+    constAfter '-' (.int (-5)) "-5)".toList = none := by
+  decide +kernel
 
 /-! ## every kind together -/
 
@@ -348,42 +380,65 @@ theorem storable_literal (c : PyConst) (h : StorableConst c) :
   cases c with
   | str s => exact absurd h (by simp [StorableConst])
   | other t => exact absurd h (by simp [StorableConst])
-  | int n => exact ⟨renderInt n, rfl, int_const_ok_partial n h⟩
+  | int n => exact ⟨signedLit (renderInt n), rfl, int_const_ok_partial n h⟩
   | bool b => exact bool_roundtrip b
   | float r bits =>
     cases r with
-    | finite neg ip fp ex => exact ⟨renderFloat neg ip fp ex, rfl, float_const_ok neg ip fp ex bits h.1 h.2⟩
+    | finite neg ip fp ex => exact ⟨signedLit (renderFloat neg ip fp ex), rfl, float_const_ok neg ip fp ex bits h.1 h.2⟩
     | inf b => exact absurd h (by simp [StorableConst])
     | nan => exact absurd h (by simp [StorableConst])
 
 /-- **A constant that reaches the output through conditional expressions keeps its value.**
-For every carrier — a constant, or `a if … else b` nested to any depth — whose constants are
-storable, every constant is emitted as a literal denoting it, and the conversions it undergoes on
+For every carrier — a constant, or `a if … else b` nested to any depth — that the translator
+accepts, every constant is emitted as a literal denoting it, and the conversions it undergoes on
 its way into the column (the `double` result variable of each enclosing conditional, the
 `static_cast<double>` that `set_var` writes for an `int`/`bool` arm, the column declared with the
-expression's type) leave its value unchanged: `1 if c else 0.5` delivers 1 and 0.5, never 0.
+expression's type) leave its value unchanged: `1 if c else 0.5` delivers 1 and 0.5, never 0; a bare
+string goes into a `string` column. Strings are allowed among the constants: an accepted carrier
+has none inside a conditional (`ifexp_str_rejected`, since 6a224ae).
 PARTIAL only in the ints (32-bit range: larger ones are the listed finding of `visit_Constant`). -/
-theorem carrier_stored_ok (k : Carrier) (h : ∀ c ∈ k.consts, StorableConst c) :
+theorem carrier_stored_ok (k : Carrier) (hacc : k.accepted = true)
+    (h : ∀ c ∈ k.consts, StorableConst c ∨ ∃ s, c = .str s) :
     ∀ p ∈ k.columnPaths, ∃ text, renderConst p.1 = .ok (text, litTy p.1) ∧ StoredOk p.1 text p.2 := by
   intro p hp
   simp only [Carrier.columnPaths, List.mem_map] at hp
   obtain ⟨q, hq, rfl⟩ := hp
   obtain ⟨hmem, hdbl, hshape⟩ := paths_shape k q hq
-  have hs := h q.1 hmem
-  obtain ⟨text, hr, hc⟩ := storable_literal q.1 hs
-  refine ⟨text, hr, hc, ?_⟩
   cases k with
   | const c =>
-    simp only at hshape
     simp only [Carrier.paths, List.mem_singleton] at hq
     subst hq
-    exact kept_own c hs
+    rcases h c hmem with hs | ⟨s, rfl⟩
+    · obtain ⟨text, hr, hc⟩ := storable_literal c hs
+      exact ⟨text, hr, hc, kept_own c hs⟩
+    · exact ⟨renderStrL pyTable s, rfl, str_const_ok s, by simp [Carrier.ty, litTy, keptThrough]⟩
   | ite a b =>
-    refine kept_doubles q.1 hs _ (by simp) ?_
+    have hns := accepted_nostr (.ite a b) hacc (by intro s hh; cases hh) q.1 hmem
+    have hs : StorableConst q.1 := by
+      rcases h q.1 hmem with hs | ⟨s, hs⟩
+      · exact hs
+      · exact absurd hs (hns s)
+    obtain ⟨text, hr, hc⟩ := storable_literal q.1 hs
+    refine ⟨text, hr, hc, kept_doubles q.1 hs _ (by simp) ?_⟩
     intro t ht
     rcases List.mem_append.mp ht with h' | h'
     · exact hdbl t h'
     · simpa [Carrier.ty] using h'
+
+/-- **A string as the value of a conditional expression is refused** (since 6a224ae; before it
+`'a' if c else 'b'` was emitted as `static_cast<double>("a")`, which C++ rejects): whatever the
+other arm is. The refusal is what the property asks for — the result variable is a `double`, and
+no literal handed to a `double` denotes the string. -/
+theorem ifexp_str_rejected (s : Str) (k : Carrier) :
+    (Carrier.ite (.const (.str s)) k).accepted = false ∧
+    (Carrier.ite k (.const (.str s))).accepted = false ∧
+    ∀ text chain, .double ∈ chain → ¬ StoredOk (.str s) text chain := by
+  refine ⟨by simp [Carrier.accepted, Carrier.ty, litTy], by simp [Carrier.accepted, Carrier.ty, litTy], ?_⟩
+  intro text chain hmem hst
+  have hk := hst.2
+  simp only [keptThrough, List.all_eq_true] at hk
+  have := hk _ hmem
+  simp at this
 
 /-- What the clause forbids (the Spec is not vacuous): were the result variable of the
 conditional typed after its first arm, `1 if c else 0.5` would push 0.5 through `int`s and
@@ -397,18 +452,6 @@ theorem stored_counterexamples :
     keptThrough (.float (.finite false [2] (some [5]) none) 4612811918334230528) [.double, .int] = false ∧
     StoredOk (.int 300) "300".toList [.double, .double, .double] ∧
     StoredOk (.float (.finite false [2] (some [0]) none) 4611686018427387904) "2.0".toList [.int, .double] := by
-  decide +kernel
-
-/-- The statement of `carrier_stored_ok` for ALL constants is FALSE of the code: the result variable
-of a conditional expression is a `double` whatever the arms are, so a string arm
-(`'a' if c else 'b'`, e.g. to choose a name handed to a method) is emitted as
-`static_cast<double>("a")` — accepted, neither passed through nor refused; C++ rejects the cast. -/
-theorem ifexp_str_counterexample :
-    (Carrier.ite (.const (.str ['a'])) (.const (.str ['b']))).columnPaths =
-      [(.str ['a'], [.double, .double, .double]), (.str ['b'], [.double, .double, .double])] ∧
-    ConstOk (.str ['a']) (renderStrL pyTable ['a']) .string ∧
-    ¬ StoredOk (.str ['a']) (renderStrL pyTable ['a']) [.double, .double, .double] ∧
-    StoredOk (.str ['a']) (renderStrL pyTable ['a']) [.string] := by
   decide +kernel
 
 /-! ## names: where strings land -/
